@@ -85,11 +85,15 @@ class NameEval:
             if f is None:
                 return {UNK} if vs else set()
             return {v if v == UNK else f(v) for v in vs}
+        if tag == 'argvar':
+            return {self.sample}
         if tag == 'field':
             adt = t[2].split('::')[-1] if isinstance(t[2], str) else ''
             if t[3] == 'name' and adt.startswith('Stored'):
-                return {self.sample} if adt == self.kind else set()
+                return {self.sample} if (adt == self.kind or self.kind == '*') else set()
             return {UNK}
+        if tag in ('global', 'ctor') and isinstance(t[1], str):
+            return {'\0ctor:' + t[1]}
         if tag == 'join':
             if id(t) in self.choice:
                 return self.ev(self.choice[id(t)], depth + 1)
@@ -139,6 +143,28 @@ class NameEval:
             return set()
         return {UNK}
 
+    def pat_test(self, value, pat, depth):
+        if pat[0] in ('wild', 'bind'):
+            return {True}
+        if pat[0] == 'or':
+            rs = [self.pat_test(value, p_, depth + 1) for p_ in pat[1]]
+            if any(True in r for r in rs) and not any(UNK in r or False in r for r in rs if True in r):
+                return {True}
+            if all(r == {False} for r in rs):
+                return {False}
+            return {UNK}
+        if pat[0] == 'ctor' and not pat[2]:
+            if '::Normalization::' in pat[1]:
+                return {pat[1].split('::')[-1] == self.norm}
+            vs = self.ev(value, depth + 1)
+            if vs and all(isinstance(v, str) and v.startswith('\0ctor:') for v in vs):
+                return {v[len('\0ctor:'):] == pat[1] for v in vs}
+        if pat[0] == 'lit':
+            vs = self.ev(value, depth + 1)
+            if vs and UNK not in vs and not any(v.startswith('\0ctor:') for v in vs):
+                return {v == pat[1] for v in vs}
+        return {UNK}
+
     def cond(self, c, depth):
         if not isinstance(c, tuple) or not c:
             return {UNK}
@@ -160,6 +186,8 @@ class NameEval:
                     return {UNK}
                 f = {'starts_with': str.startswith, 'ends_with': str.endswith, 'contains': str.__contains__}[op]
                 return {f(x, y) for x in a for y in b}
+            if op == 'matches' and len(args) == 2 and args[1][0] == 'pat':
+                return self.pat_test(args[0], args[1][1], depth + 1)
             if op == '!' and len(args) == 1:
                 return {(not x) if x != UNK else UNK for x in self.cond(args[0], depth + 1)}
             if op in ('||', '&&'):
@@ -596,6 +624,33 @@ def rule_store_total(ctx):
             v = _direct_store(n)
             if v and not [c for c in H.conditional_context(fn, n)]:
                 pushers[fn.key] = v
+        # `push_indexed(&mut self.stored_x, value)`: the vector is handed to a generic appending helper
+        for n in fn.walk(lambda x: x['k'] in ('call', 'mcall')):
+            if not ctx.pv.local_fns(n.get('callee')) or H.conditional_context(fn, n):
+                continue
+            for a in n.get('args', []):
+                if a.get('k') == 'ref' and a.get('mut'):
+                    r = a['e']
+                    while r.get('k') in ('ref', 'wrap'):
+                        r = r['e']
+                    if r.get('k') == 'field' and r.get('adt', '').endswith('schema::Schema') and r.get('name', '').startswith('stored_'):
+                        pushers.setdefault(fn.key, r['name'])
+    # .. transitively: a Schema method that unconditionally calls such a method (`push_named_scalar` -> `push_scalar`)
+    changed = True
+    while changed:
+        changed = False
+        for fn in cg.all_fns():
+            if fn.from_macro or fn.key in pushers or not norm_path(fn.path).startswith('graphql_client_codegen::schema::Schema::'):
+                continue
+            if norm_path(fn.path).endswith(('Schema::new', 'Schema::push_default_scalars')):
+                continue
+            for n in fn.walk(lambda x: x['k'] in ('call', 'mcall')):
+                if H.conditional_context(fn, n):
+                    continue
+                for lf_ in ctx.pv.local_fns(n.get('callee')) or []:
+                    if lf_.key in pushers and fn.key not in pushers:
+                        pushers[fn.key] = pushers[lf_.key]
+                        changed = True
     counts = {}
     for fn in cg.all_fns():
         np_ = norm_path(fn.path)
